@@ -74,7 +74,7 @@ func VerifC01_basic() {
 			want = "false"
 		}
 	case 7:
-		i := vfInt("i", -1, 1)
+		i := vfInt("pi", -1, 1)
 		item, want = vfPlain{i}, fmt.Sprintf("{%d}", i)
 	case 8:
 		// a named rune type is not a rune: formatted by %v as a number
